@@ -628,7 +628,7 @@ nng_err
 nni_url_clone_inline(nng_url *dst, const nng_url *src)
 {
 	if (src->u_bufsz != 0) {
-		if ((dst->u_buffer = nni_alloc(dst->u_bufsz)) == NULL) {
+		if ((dst->u_buffer = nni_alloc(src->u_bufsz)) == NULL) {
 			return (NNG_ENOMEM);
 		}
 		dst->u_bufsz = src->u_bufsz;
